@@ -489,7 +489,7 @@ def run(ctx):
         seen.setdefault(repr(c), c)
     ctx.sweep(list(seen.values()), check_case)
     ctx.extra["boundary_sweep"] = len(seen)
-    ctx.hyp(_strategy, check_case, max_examples=ctx.pick(4000, 60000))
+    ctx.hyp(_strategy, check_case, max_examples=ctx.pick(6000, 400000))
 
 
 def replay(case):
